@@ -130,9 +130,12 @@ class OrderedPartition:
                         nb_elements_to_see -= 1
                 # move to next bucket
                 id_bucket_cons += 1
-                # move to next target group of the OrderedPartition if all elements have been checked
-                if nb_elements_to_see == 0:
-                    id_partition += 1
+            # move to next target group of the OrderedPartition if all elements have been checked
+            if nb_elements_to_see == 0:
+                id_partition += 1
+            # the consensus has no more bucket whereas some elements of the group have not been seen
+            else:
+                flag = False
         return flag
 
     def __str__(self) -> str:
